@@ -15,11 +15,13 @@ pub struct SchedSink {
     pub data: Vec<u8>,
     pub calls: usize,
     pub rand_cap: Option<Rng>,
+    /// the failure (hard error or zero-byte write) happens once; afterwards the sink accepts bytes again
+    pub transient: bool,
 }
 
 impl SchedSink {
     pub fn new(cap: usize, limit: Option<usize>, hard: bool) -> Self {
-        SchedSink { cap, limit, hard, data: vec![], calls: 0, rand_cap: None }
+        SchedSink { cap, limit, hard, data: vec![], calls: 0, rand_cap: None, transient: false }
     }
 }
 
@@ -31,6 +33,7 @@ impl Write for SchedSink {
         }
         if let Some(l) = self.limit {
             if self.data.len() >= l {
+                if self.transient { self.limit = None; }
                 return if self.hard {
                     Err(io::Error::new(io::ErrorKind::Other, "injected sink failure"))
                 } else {
@@ -180,6 +183,23 @@ pub fn run_value(out: &mut Out, r: &mut Rng, v: &Value, po: Po, every_offset: bo
         for hard in [true, false] {
             let cap = *r.pick(&[1usize, 2, 5, 1 << 20]);
             check_sink(out, v, po, cap, Some(off), hard, &expected, true);
+            // the same failure, but only once: a printer that stops at the first
+            // error delivers the same prefix and reports the same error
+            if off < n {
+                for default_printer in [false, true] {
+                    if default_printer && po != Po::DEFAULT { continue; }
+                    let mut sink = SchedSink::new(cap, Some(off), hard);
+                    sink.transient = true;
+                    let rr = if default_printer { lexpr::to_writer(&mut sink, v) } else { lexpr::to_writer_custom(&mut sink, v, po.options()) };
+                    out.oracle_checks += 1;
+                    let want_res = if hard { "hard" } else { "zero" };
+                    if sink.data != &expected[..off] || res_name(&rr) != want_res {
+                        out.fail("sink-transient", format!("a sink that fails once at offset {} ({}) and then accepts bytes again received {} bytes with result {}: bytes were written after the failure or the failure was not reported", off, want_res, sink.data.len(), res_name(&rr)),
+                                 format!("sink {} {} {} {} {}", po.code(), cap, off, if hard { 1 } else { 0 }, enc_case_value(v)),
+                                 json!({"delivered": hex(&sink.data), "expected_prefix": hex(&expected[..off]), "options": po.code(), "default_printer": default_printer}));
+                    }
+                }
+            }
         }
     }
 }
